@@ -5,7 +5,8 @@
    reactivex/observer/scheduledobserver.py by the K1 correspondence of
    harness/props/C22.py. *)
 From RxVerif Require Import Base.Prelude Ops.Machine Subjects.Subject Subjects.Family Subjects.Replay
-  Subjects.ReplaySpec Subjects.SubjectFacts Subjects.ReplayFacts Subjects.ReplayTreeFacts.
+  Subjects.ReplaySpec Subjects.SubjectFacts Subjects.ReplayFacts Subjects.ReplayTreeFacts
+  Subjects.ReplayLiveFacts.
 
 (* ---- the main statement, for ARBITRARY call trees (observers that subscribe,
         unsubscribe, emit, dispose from inside their callbacks, also while other
@@ -35,10 +36,7 @@ Print Assumptions C22_received_is_prefix_of_replay_then_later.
    (it has neither unsubscribed nor received a terminal notification), what it
    has received ++ what was handed to its wrapper but is not processed yet ++ what
    is still queued in its ScheduledObserver  IS  its whole entitlement -- on every
-   call tree, at every moment.  (What remains between this and "it receives every
-   later notification" is that the scheduler runs the queue: no lost wake-up of
-   ScheduledObserver.ensure_active/run; that part is checked by the oracle of
-   harness/props/C22.py on every generated run, not proved.) *)
+   call tree, at every moment. *)
 Theorem C22_nothing_lost :
   forall (A : Type) (react : nat -> nat -> list (@rop A)) (bs w : option Z) (top : list (@rop A))
          (fuel o : nat) (os : @rostate A),
@@ -58,6 +56,22 @@ Theorem C22_live_observer_stays_registered :
     In o (r_observers (rc_st c)) /\ so_stopped (r_so os) = false.
 Proof. exact (@replay_live_registered). Qed.
 Print Assumptions C22_live_observer_stays_registered.
+
+(* Completeness (no lost wake-up of ScheduledObserver.ensure_active / run): when a
+   run has finished -- every top-level call made, the scheduler drained after
+   each -- an observer that has not unsubscribed (its wrapper is still live, or it
+   was stopped by a terminal notification) has received EXACTLY its entitlement:
+   all retained values in order, the terminal if any, and EVERY later
+   notification.  Again for arbitrary call trees, buffer sizes and windows. *)
+Theorem C22_finished_run_delivers_everything :
+  forall (A : Type) (react : nat -> nat -> list (@rop A)) (bs w : option Z) (top : list (@rop A))
+         (fuel o : nat) (os : @rostate A),
+    let c := rrun react fuel (rinit_cfg bs w top) in
+    rc_k c = [] -> rc_obs c o = Some os ->
+    (ra_stopped os = false \/ has_term (rview o (rlog_of c)) = true) ->
+    rview o (rlog_of c) = xview (bufsize_of bs) w o false rg_init (ops_of (rlog_of c)).
+Proof. exact (@replay_complete). Qed.
+Print Assumptions C22_finished_run_delivers_everything.
 
 (* ---- the retention policy: the code keeps a queue that it trims (by count,
         then by age) at every on_next, subscribe and terminal.  [qinv] ties that
@@ -153,3 +167,11 @@ Example C22_witness_spec :
   xview 2 (Some 2) 0%nat false rg_init calls = [Next 1; Next 2; Next 3] /\
   xview 2 (Some 2) 1%nat false rg_init calls = [Next 3].
 Proof. vm_compute. split; reflexivity. Qed.
+
+(* the hypotheses of the completeness theorem are satisfiable: the re-entrant
+   witness run has finished and both observers' wrappers are still live *)
+Example C22_witness_finished :
+  let c := rrun (rreact_tbl [(0%nat, [[RNext 6]])]) 1000 (rinit_cfg None None [RSub 0%nat; RSub 1%nat; RNext 5]) in
+  rc_k c = [] /\ (exists os, rc_obs c 1%nat = Some os /\ ra_stopped os = false) /\
+  rview 1%nat (rlog_of c) = [Next 5; Next 6].
+Proof. vm_compute. split; [reflexivity|]. split; [eexists; split; reflexivity|reflexivity]. Qed.
